@@ -59,6 +59,9 @@ var c17InvalidClasses = []string{
 	"no-outer", "hole-outside", "two-outers-one-unclosed", "two-outers-hole-outside",
 	"other-roles-extra", "other-roles-only",
 	"inline-absent-partial", "inline-absent-unclosed", "mixed",
+	// tainted for a reason that leaves every ring of the relation closed and valid: here the
+	// option has nothing to do and the whole output must stay the same
+	"closed-outer-one-node-missing", "two-pieces-missing-inner", "two-rings-missing-inner", "closed-outer-missing-other-role",
 }
 
 // ring makes a star-shaped ring of k fresh node ids around (cx,cy); the node elements are added
@@ -118,6 +121,112 @@ func c17InlineNodes(refs []int64, pos map[int64]c17Pt, withCoords func(id int64)
 // addInvalidMP adds one relation of the class and returns the identities its own feature(s)
 // may carry.
 func (d *c17DS) addInvalidMP(class string, tagged bool) map[c17Key]bool {
+	own, rel := d.addInvalidMPRel(class, tagged)
+	// containment of a hole in its outer ring is known by construction only
+	geom := class == "hole-outside" || class == "two-outers-hole-outside" || class == "mixed" || class == "outer-missing-nodes"
+	if geom || d.mpSensitive(rel) {
+		d.relCls["mp-option-sensitive"] = true
+		return own
+	}
+	// every ring that the present members describe is closed and has >= 4 points and every hole
+	// lies in an outer ring: neither documented effect of IncludeInvalidPolygons applies, so
+	// not even the relation's own features may change with the option
+	d.relCls["mp-option-insensitive"] = true
+	return map[c17Key]bool{}
+}
+
+// mpSensitive: may IncludeInvalidPolygons, as documented ("a polygon with nil outer/first ring
+// if the outer ring is not found in the data", "rings whose endpoints do not match"; README:
+// rings of fewer than 4 points count as invalid too), change this relation's feature? Decided
+// from the member lines alone: some outer or inner member lines do not close into rings of
+// >= 4 points, or there are hole rings but no outer ring at all.
+func (d *c17DS) mpSensitive(rel *osm.Relation) bool {
+	pos := map[int64]c17Pt{}
+	for _, n := range d.o.Nodes {
+		if n.Lat != 0 || n.Lon != 0 {
+			pos[int64(n.ID)] = c17Pt{n.Lon, n.Lat}
+		}
+	}
+	line := func(wns osm.WayNodes) []c17Pt {
+		var out []c17Pt
+		for _, wn := range wns {
+			if wn.Lat != 0 || wn.Lon != 0 {
+				out = append(out, c17Pt{wn.Lon, wn.Lat})
+			} else if p, ok := pos[int64(wn.ID)]; ok {
+				out = append(out, p)
+			}
+		}
+		return out
+	}
+	lines := map[string][][]c17Pt{}
+	for _, m := range rel.Members {
+		if m.Type != osm.TypeWay || (m.Role != "outer" && m.Role != "inner") {
+			continue
+		}
+		var l []c17Pt
+		if w := d.wayOrRel(c17Key{"way", m.Ref}); w != nil {
+			l = line(w.(*osm.Way).Nodes)
+		} else {
+			l = line(m.Nodes)
+		}
+		if len(l) >= 2 {
+			lines[m.Role] = append(lines[m.Role], l)
+		}
+	}
+	// ringsOK: the lines close into rings of >= 4 points; also returns the number of rings
+	ringsOK := func(ls [][]c17Pt) (bool, int) {
+		deg := map[c17Pt]int{}
+		parent := map[c17Pt]c17Pt{}
+		var find func(p c17Pt) c17Pt
+		find = func(p c17Pt) c17Pt {
+			if q, ok := parent[p]; ok && q != p {
+				r := find(q)
+				parent[p] = r
+				return r
+			}
+			parent[p] = p
+			return p
+		}
+		rings := 0
+		for _, l := range ls {
+			a, b := l[0], l[len(l)-1]
+			if a == b {
+				if len(l) < 4 {
+					return false, 0
+				}
+				rings++
+				continue
+			}
+			deg[a]++
+			deg[b]++
+			parent[find(a)] = find(b)
+		}
+		size := map[c17Pt]int{}
+		for _, l := range ls {
+			if l[0] != l[len(l)-1] {
+				size[find(l[0])] += len(l) - 1
+			}
+		}
+		for p, n := range deg {
+			if n != 2 {
+				return false, 0
+			}
+			_ = p
+		}
+		for _, n := range size {
+			if n < 3 {
+				return false, 0
+			}
+			rings++
+		}
+		return true, rings
+	}
+	okO, nO := ringsOK(lines["outer"])
+	okI, nI := ringsOK(lines["inner"])
+	return !okO || !okI || (nO == 0 && nI > 0)
+}
+
+func (d *c17DS) addInvalidMPRel(class string, tagged bool) (map[c17Key]bool, *osm.Relation) {
 	r := d.r
 	cx, cy := float64(r.Range(-150, 150))+0.5, float64(r.Range(-60, 60))+0.5
 	rad := float64(r.Range(5, 400)) / 1000
@@ -292,6 +401,31 @@ func (d *c17DS) addInvalidMP(class string, tagged bool) map[c17Key]bool {
 		o2, _ := d.ring(cx-4*rad, cy, rad, 5, 0.7, 1.0, true)
 		way(c17Closed(o2), r.PickS("outer", ""))
 		ms = append(ms, d.nodeMember(0.2), d.relMember())
+	case "closed-outer-one-node-missing":
+		big, _ := d.ring(cx, cy, rad, r.Range(5, 8), 0.7, 1.0, true)
+		d.removeNode(big[1+r.Intn(len(big)-1)]) // never the closing node: the ring stays closed
+		way(c17Closed(big), "outer")
+		for _, id := range outer {
+			d.removeNode(id)
+		}
+	case "two-pieces-missing-inner":
+		a, b := twoPieces(outer)
+		way(a, "outer")
+		way(b, "outer")
+		absent("inner")
+	case "two-rings-missing-inner":
+		way(c17Closed(outer), "outer")
+		o2, _ := d.ring(cx+4*rad, cy, rad, r.Range(4, 6), 0.7, 1.0, true)
+		way(c17Closed(o2), "outer")
+		absent("inner")
+		if r.Bool() {
+			in, _ := innerRing(true)
+			way(c17Closed(in), "inner")
+		}
+	case "closed-outer-missing-other-role":
+		way(c17Closed(outer), "outer")
+		absent(r.PickS("", "subarea"))
+		absent("inner")
 	default:
 		panic("C17 harness: unknown invalid-multipolygon class " + class)
 	}
@@ -320,7 +454,7 @@ func (d *c17DS) addInvalidMP(class string, tagged bool) map[c17Key]bool {
 		}
 	}
 	d.relCls["mp-invalid/"+class] = true
-	return own
+	return own, rel
 }
 
 func c17Identity(ft map[string]any) (c17Key, bool) {
@@ -459,7 +593,11 @@ func c17CheckLight(res *fw.Result, d *c17DS, class string, own map[c17Key]bool) 
 					break
 				}
 			}
-			viol("invalid-option/unrelated-feature-changed", "IncludeInvalidPolygons changed a feature that does not belong to the invalid relation: "+first,
+			what := "invalid-option/unrelated-feature-changed"
+			if len(own) == 0 {
+				what = "invalid-option/changed-although-all-rings-valid"
+			}
+			viol(what, "IncludeInvalidPolygons changed a feature that does not belong to a relation with a missing outer ring or an unclosed / short ring: "+first,
 				map[string]any{"options": c17MaskName(mask), "own": fmt.Sprint(own), "without": string(jss[mask]), "with": string(jss[mask|8])})
 		}
 		if !bytes.Equal(jss[mask], jss[mask|8]) {
@@ -467,6 +605,9 @@ func c17CheckLight(res *fw.Result, d *c17DS, class string, own map[c17Key]bool) 
 			res.Put("invalid_option_effective_classes", class)
 		}
 		res.Add("invalid_option_comparisons", 1)
+		if len(own) == 0 {
+			res.Add("invalid_option_comparisons_whole_output", 1)
+		}
 	}
 	if res.Sample == nil {
 		res.Sample = map[string]any{"dataset": d.label, "class": class, "input": desc, "output_default": string(jss[0]), "output_include_invalid": string(jss[8])}
